@@ -635,7 +635,11 @@ class DirectoryRecord:
         if self.initialized:
             raise pycdlibexception.PyCdlibInternalError('Directory Record already initialized')
 
-        self._new(vd, b'\x01', parent, seqnum, True, log_block_size, xa, date_seconds)
+        # The 'dotdot' record describes the parent of the directory it lives
+        # in (the root directory is its own parent), including its length.
+        target = parent.parent if parent.parent is not None else parent
+        self._new(vd, b'\x01', parent, seqnum, True,
+                  max(target.data_length, log_block_size), xa, date_seconds)
         if rock_ridge:
             self._rr_new(rock_ridge, b'', b'', False, False, rr_relocated_parent,
                          file_mode, date_seconds)
